@@ -32,7 +32,7 @@ func pairUndo(c *Ctx, ru *Rule, fn *ssa.Function, acqKeys, relKeys []string, wha
 		sig := acq.Common().Signature()
 		errIdx := sig.Results().Len() - 1
 		var okEdges []CFGEdge
-		for _, b := range fn.Blocks {
+		for _, b := range blocksDeep(fn) {
 			for s := range b.Succs {
 				isMine := func(v ssa.Value) bool { ci, i := resultOf(v); return ci == acq && i == errIdx }
 				if edgeNil(isMine, true)(b, s) || (sig.Results().Len() == 1 && edgeBool(func(v ssa.Value) bool { return v == av }, true)(b, s)) {
@@ -62,7 +62,7 @@ func pairUndo(c *Ctx, ru *Rule, fn *ssa.Function, acqKeys, relKeys []string, wha
 			}
 			for _, rc := range callsIn(df, relKeys...) {
 				// receiver inside the closure is a captured variable with the same name
-				if pathRoot(pathOf(callArgs(rc)[0])) == pathRoot(recv) {
+				if pathRoot(pathOf(callArgs(rc)[0])) == pathRoot(recv) || pathOfResolved(callArgs(rc)[0]) == recv {
 					condDefer = append(condDefer, d)
 				}
 			}
@@ -189,7 +189,7 @@ func edgeLoopUndo(c *Ctx, ru *Rule, fnK, acqK, relK string) {
 	{
 		var failEdges []CFGEdge
 		isErr := func(v ssa.Value) bool { ci, i := resultOf(v); return ci == acq && i == 1 }
-		for _, b := range f.Blocks {
+		for _, b := range blocksDeep(f) {
 			for s := range b.Succs {
 				if edgeNil(isErr, false)(b, s) {
 					failEdges = append(failEdges, CFGEdge{b, s})
@@ -365,7 +365,7 @@ func checkC03(c *Ctx, r *Report) {
 	} {
 		if f := r3.need(e.fn); f != nil {
 			var fail []CFGEdge
-			for _, b := range f.Blocks {
+			for _, b := range blocksDeep(f) {
 				for s := range b.Succs {
 					if edgeNil(isCallResult(0, e.edges), false)(b, s) {
 						fail = append(fail, CFGEdge{b, s})
@@ -637,7 +637,7 @@ func checkC03(c *Ctx, r *Report) {
 		// siblings: s.owner.X(..) in the owner branch of every operation, e.X-ForChild(..) on the edges
 		nOwner := 0
 		for _, f := range c.FnsOfPkg(rmP) {
-			allInstrs(f, func(in ssa.Instruction) {
+			allInstrsIn(f, func(in ssa.Instruction) {
 				ci, ok := in.(ssa.CallInstruction)
 				if !ok {
 					return
@@ -734,7 +734,7 @@ func checkC03(c *Ctx, r *Report) {
 		}
 		var checks []chk
 		seenH := map[*ssa.BasicBlock]bool{}
-		for _, b := range f.Blocks {
+		for _, b := range blocksDeep(f) {
 			if ifOf(b) == nil {
 				continue
 			}
@@ -769,7 +769,7 @@ func checkC03(c *Ctx, r *Report) {
 						return false
 					}
 					a, ok := ld.X.(*ssa.IndexAddr)
-					return ok && a.Index == ia.Index && isIntType(ld.Type())
+					return ok && resolveLoad(a.Index) == resolveLoad(ia.Index) && isIntType(ld.Type())
 				}
 				plus1 := func(v ssa.Value) bool {
 					bo, ok := v.(*ssa.BinOp)
